@@ -126,6 +126,10 @@ pub struct EventModel {
     pub pads: Vec<PadSignal>,
     pub pad_samples: u16,
     pub chunk_size: u16,
+    /// messages (k-th in (board, chip) order, modulo their number) whose
+    /// `requested_samples` differs from `pad_samples`: pads of one column are
+    /// read out by several chips, which need not agree on the waveform length
+    pub msg_samples: Vec<(u16, u16)>,
 }
 
 pub type Bank = (String, Vec<u8>);
@@ -196,11 +200,16 @@ impl EventModel {
         }
         let mut keys: Vec<_> = msgs.keys().copied().collect();
         keys.sort_unstable();
-        for k in keys {
+        let nk = keys.len();
+        for (i, k) in keys.into_iter().enumerate() {
             let mut ch = msgs.remove(&k).unwrap();
             ch.sort_by_key(|c| c.0);
             ch.dedup_by_key(|c| c.0);
-            out.extend(pwb_banks(k.0, k.1, ch, self.pad_samples, self.chunk_size));
+            let n = self.msg_samples.iter().find(|(m, _)| *m as usize % nk == i).map(|x| x.1.min(511)).unwrap_or(self.pad_samples);
+            for c in ch.iter_mut() {
+                c.1.resize(n as usize, PAD_BASELINE_SIM);
+            }
+            out.extend(pwb_banks(k.0, k.1, ch, n, self.chunk_size));
         }
         Some(out)
     }
@@ -322,6 +331,7 @@ impl HitEvent {
             pads,
             pad_samples: (DELAY_SIM + self.pad_bins as usize).min(511) as u16,
             chunk_size: self.chunk_size,
+            msg_samples: vec![],
         }
     }
 }
